@@ -43,9 +43,10 @@ def IntLitsOK (xs : List Node) : Prop := ∀ x ∈ xs, ∀ m v, x = .int m v →
 
 /-- guard of the in_array pass: the static kind `int` of the left operand is also its dynamic kind when the
     integer-set rewrite fires; the left operand is dynamically a string when the string-set rewrite fires -/
-def InArrayOK (c : SCfg) : Node → Prop
+def InArrayOK (c : SCfg) (fl : Flags) : Node → Prop
   | .binary _ _ l (.array _ xs) =>
-    (l.kd = .num .int → allInts xs ≠ none → DynInt c l ∧ IntLitsOK xs) ∧ (allStrs xs ≠ none → DynStr c l)
+    (l.kd = .num .int → allInts xs ≠ none → DynInt c l ∧ IntLitsOK xs) ∧
+    (allStrs xs ≠ none → (fl.inArrayStrGuard = true → l.kd = .string) → DynStr c l)
   | _ => True
 
 theorem evalList_ints (ctx : Ctx) : ∀ (xs : List Node) (vs : List Int), allInts xs = some vs → IntLitsOK xs →
@@ -178,7 +179,7 @@ theorem sim_of_ev' {n' n : Node} (hp' : isPair n' = false) (hp : isPair n = fals
   ev := ev
   head := head_of_ev hp' hp ev
 
-theorem inArray_sound (fl : Flags) (N : Node) (hg : InArrayOK c N) (st : St) :
+theorem inArray_sound (fl : Flags) (N : Node) (hg : InArrayOK c fl N) (st : St) :
     Sim c (inArrayRule fl N st).1 N := by
   unfold inArrayRule
   split
@@ -208,18 +209,26 @@ theorem inArray_sound (fl : Flags) (N : Node) (hg : InArrayOK c N) (st : St) :
           simp only [hk, beq_self_eq_true, if_true, Option.map_none]
           split
           · exact sim_refl c _
-          · split
+          · rename_i hsg
+            split
             · rename_i ss hss
-              have hd := hg.2 (by simp [hss])
+              have hd := hg.2 (by simp [hss]) (fun hf => by
+                cases hq : (l.kd != RKind.string) with
+                | false => simpa using hq
+                | true => exact absurd (by simp [hf, hq]) hsg)
               exact mk _ (fun ctx neg => inArray_str_core ctx neg l ma {} xs ss hd hss)
             · exact sim_refl c _
       · have e : (l.kd == RKind.num Kind.int) = false := by simpa using hk
         simp only [e, Bool.false_eq_true, if_false]
         split
         · exact sim_refl c _
-        · split
+        · rename_i hsg
+          split
           · rename_i ss hss
-            have hd := hg.2 (by simp [hss])
+            have hd := hg.2 (by simp [hss]) (fun hf => by
+              cases hq : (l.kd != RKind.string) with
+              | false => simpa using hq
+              | true => exact absurd (by simp [hf, hq]) hsg)
             exact mk _ (fun ctx neg => inArray_str_core ctx neg l ma {} xs ss hd hss)
           · exact sim_refl c _
     · exact sim_refl c _
